@@ -1,0 +1,11 @@
+//go:build verif
+
+package types
+
+// VerifSkipSeal, when set to true by a monitoring harness, makes
+// verifyCascadingFields skip only the ethash proof-of-work computation so that
+// synthetic header trees can be built without mining. Every other header check
+// still runs. Only compiled with the `verif` build tag; false by default.
+var VerifSkipSeal bool
+
+func verifSkipSeal() bool { return VerifSkipSeal }
